@@ -148,14 +148,25 @@ class Z3Prog:
         for c in solver.constraints:
             self.zs.add(to_z3(c, self.zv))
 
-    def check(self, fixed, want_model=False):
+    def check(self, fixed, want_model=False, timeout_ms=None):
+        """satisfiability with the given (variable, value) pairs fixed; with timeout_ms the answer may be
+        None (z3 gave up: inconclusive, never counted as accept or reject)"""
         from cspuz.expr import BoolVar
         z3 = self.z3
         self.zs.push()
         for v, val in fixed:
             zv = self.zv[v.id]
             self.zs.add((zv if val else z3.Not(zv)) if isinstance(v, BoolVar) else zv == val)
-        r = self.zs.check() == z3.sat
+        if timeout_ms is not None:
+            self.zs.set("timeout", int(timeout_ms))
+            res = self.zs.check()
+            self.zs.set("timeout", 4294967295)
+            if res == z3.unknown:
+                self.zs.pop()
+                return (None, None) if want_model else None
+            r = res == z3.sat
+        else:
+            r = self.zs.check() == z3.sat
         model = None
         if r and want_model:
             m = self.zs.model()
@@ -434,6 +445,181 @@ def posted(helper, n=None, edges=None, shape=None):
     return s, list(a.data)
 
 
+# -- input forms / call histories for the search (classes 1, 3, 4, 6 of HARDEN_BRIEF)
+
+VAR_FORMS_GRAPH = ["neg", "array-from-gen", "array-from-map", "list", "tuple", "list-consts", "generator"]
+VAR_FORMS_GRID = ["neg", "array2d-from-iter", "array2d-from-rows-gen"]
+VAR_KW = ["pos", "graph-kw", "all-kw"]
+
+
+def random_variant(rng, helper, grid, n, n_edges):
+    """one non-default way of calling the helper: is_active form x keyword style x call history"""
+    v = {}
+    forms = VAR_FORMS_GRID if grid else VAR_FORMS_GRAPH
+    if helper == "NS" and not grid:
+        # the explicit-graph route of ..._not_segmenting is documented for BoolArray1D only
+        forms = ["neg", "array-from-gen", "array-from-map"]
+    if rng.random() < 0.7:
+        v["form"] = rng.choice(forms)
+        if v["form"] == "list-consts":
+            v["consts"] = {str(i): rng.random() < 0.5 for i in range(n) if rng.random() < 0.4}
+    if rng.random() < 0.5:
+        v["kw"] = rng.choice(VAR_KW[1:])
+    c = rng.randrange(4)
+    if c == 0:
+        v["twice"] = True
+    elif c == 1 and not grid and n_edges >= 1:
+        v["incremental"] = rng.randrange(n_edges)
+    if not v:
+        v["twice"] = True
+    return v
+
+
+def variant_tag(v):
+    t = [v.get("form", "array"), v.get("kw", "pos")]
+    if v.get("twice"):
+        t.append("twice")
+    if "incremental" in v:
+        t.append("incr%d" % v["incremental"])
+    if v.get("consts"):
+        t.append("c" + "".join("%s%d" % (k, int(b)) for k, b in sorted(v["consts"].items(), key=lambda kv: int(kv[0]))))
+    return "+".join(t)
+
+
+def snapshot(arg, g):
+    from cspuz.array import Array1D, Array2D
+    a = None
+    if isinstance(arg, (Array1D, Array2D)):
+        a = ("array", type(arg), tuple(arg.shape), list(arg.data))
+    elif isinstance(arg, (list, tuple)):
+        a = ("seq", type(arg), len(arg), list(arg))
+    gg = None if g is None else (g.num_vertices, list(g.edges), [list(l) for l in g.incident_edges])
+    return a, gg
+
+
+def same_snapshot(x, y):
+    (a, g), (b, h) = x, y
+    if g != h:
+        return False
+    if a is None or b is None:
+        return a is b
+    return a[:3] == b[:3] and len(a[3]) == len(b[3]) and all(p is q for p, q in zip(a[3], b[3]))
+
+
+def posted_v(helper, variant, n=None, edges=None, shape=None):
+    """like posted(), for a non-default call.  Returns (solver, free variables, info) or (None, error, info);
+    info: 'active_of' maps a pattern of the free variables to the activity pattern it stands for,
+    'args_unchanged' tells whether is_active / graph were left as they were."""
+    from cspuz import Solver
+    from cspuz import graph as G
+    from cspuz.array import BoolArray1D, BoolArray2D
+    f = G.active_vertices_not_adjacent if helper == "NA" else G.active_vertices_not_adjacent_and_not_segmenting
+    form = variant.get("form", "array")
+    consts = {int(k): b for k, b in variant.get("consts", {}).items()} if form == "list-consts" else {}
+    s = Solver()
+    invert = False
+    if shape is not None:
+        h, w = shape
+        nn = h * w
+        base = s.bool_array(shape)
+        free = list(base.data)
+        if form == "neg":
+            arg, invert = ~base, True
+        elif form == "array2d-from-iter":
+            arg = BoolArray2D(iter(list(base.data)), (int(str(h)), int(str(w))))
+        elif form == "array2d-from-rows-gen":
+            arg = BoolArray2D((x for x in row) for row in [free[y * w:(y + 1) * w] for y in range(h)]) if h and w else base
+        else:
+            arg = base
+        g = None
+    else:
+        nn = n
+        base = s.bool_array(n)
+        free = [v for i, v in enumerate(base.data) if i not in consts]
+        if form == "neg":
+            arg, invert = ~base, True
+        elif form == "array-from-gen":
+            arg = BoolArray1D(v for v in base.data)
+        elif form == "array-from-map":
+            arg = BoolArray1D(map(lambda v: v, reversed(list(reversed(base.data)))))
+        elif form == "list":
+            arg = list(base.data)
+        elif form == "tuple":
+            arg = tuple(base.data)
+        elif form == "list-consts":
+            arg = [consts[i] if i in consts else v for i, v in enumerate(base.data)]
+        elif form == "generator":
+            arg = (v for v in base.data)
+        else:
+            arg = base
+        k = variant.get("incremental")
+        g = graphcap.mk_graph(n, edges if k is None else edges[:k])
+        if k is not None:
+            # history: the same Graph object was used for an earlier call, then extended
+            s0 = Solver()
+            vlib.guarded(f, s0, s0.bool_array(n), g)
+            for (a, b) in edges[k:]:
+                g.add_edge(a, b)
+    kw = variant.get("kw", "pos")
+
+    def call():
+        if kw == "all-kw":
+            return vlib.guarded(f, solver=s, is_active=arg, graph=g)
+        if kw == "graph-kw":
+            return vlib.guarded(f, s, arg, graph=g)
+        return vlib.guarded(f, s, arg) if g is None else vlib.guarded(f, s, arg, g)
+    before = snapshot(arg, g)
+    r = call()
+    if r[0] == "ok" and variant.get("twice"):
+        r = call()
+    info = {"args_unchanged": same_snapshot(before, snapshot(arg, g)), "n": nn}
+
+    def active_of(sub):
+        it = iter(sub)
+        full = [consts[i] if i in consts else next(it) for i in range(nn)]
+        return tuple((not b) if invert else b for b in full)
+    info["active_of"] = active_of
+    if r[0] == "err":
+        return None, r[1], info
+    return s, free, info
+
+
+def check_variant(ctx, what, key_prefix, helper, variant, want_fn, detail, n=None, edges=None, shape=None):
+    """the accepted set of a non-default call against the oracle (want_fn over full activity patterns)"""
+    tag = variant_tag(variant)
+    ctx.count("h:variant-form:" + variant.get("form", "array"))
+    ctx.count("h:variant-kw:" + variant.get("kw", "pos"))
+    ctx.count("h:variant-history:" + ("twice" if variant.get("twice") else "incremental" if "incremental" in variant else "once"))
+    s, free, info = posted_v(helper, variant, n=n, edges=edges, shape=shape)
+    d = dict(detail)
+    d["variant"] = variant
+    key_prefix = "%s[%s]" % (key_prefix, tag)
+    if not info["args_unchanged"]:
+        ctx.violation(key_prefix + ":args-mutated", what + ": the call changed its is_active / graph argument", d)
+    if s is None:
+        if variant.get("form") == "generator" and free == "TypeError":
+            # a one-shot iterable is outside the documented Sequence type: rejecting it is fine,
+            # accepting it with a different meaning is not
+            ctx.count("h:generator-argument-rejected")
+            return
+        d["error"] = free
+        ctx.violation(key_prefix + ":raises", what + ": helper raised on a valid call", d)
+        return
+    _, acc = accepted_set(s, free)
+    bad = 0
+    for sub in graphcap.patterns(len(free)):
+        act = info["active_of"](sub)
+        ctx.prop_case(what, (key_prefix, bits(sub)))
+        exp, obs = want_fn(act), sub in acc
+        if exp != obs:
+            bad += 1
+            d2 = dict(d)
+            d2.update({"pattern": bits(act), "free_pattern": bits(sub), "expected_accept": exp, "observed_accept": obs})
+            ctx.violation("%s:p=%s" % (key_prefix, bits(act)), what + ": accepted patterns differ from the graph definition", d2)
+            if bad >= 3:
+                break
+
+
 def accepted_set(s, avars):
     p = Z3Prog(s)
     out = {}
@@ -467,6 +653,45 @@ def search_graphs(ctx):
             yield n, es
 
 
+def search_graph_forms(ctx):
+    """(label, n, edges, also validate the Coq spec): graph input forms and sizes beyond the exhaustive scope"""
+    import c08pat
+    rng = ctx.rng
+    deep = ctx.thorough or ctx.deep
+    seen = set()
+
+    def fresh(n, es):
+        k = (n, tuple(es))
+        if k in seen:
+            return False
+        seen.add(k)
+        return True
+    # every small multigraph (loops included) with all edges stored as (larger, smaller), and with mixed orientation
+    for n, es in graphcap.all_multigraphs(4 if deep else 3, 4 if deep else 3, loops=True):
+        if not es:
+            continue
+        rev = [(b, a) for (a, b) in es]
+        if rev != es and fresh(n, rev):
+            yield "small-reversed", n, rev, False
+        if len(es) >= 2 and rng.random() < 0.5:
+            mixed = shuffled(rng, es)
+            if fresh(n, mixed):
+                yield "small-mixed-shuffled", n, mixed, False
+    # cycles closed by a reversed edge, a loop inside a cycle, 4 vertices
+    for k in (3, 4, 5, 6):
+        es = [(i, i + 1) for i in range(k - 1)] + [(k - 1, 0)]
+        yield "cycle-closed-by-reversed-edge", k, es, True
+        yield "cycle-with-loop", k, es[:1] + [(k // 2, k // 2)] + es[1:], True
+    for name, n, es in c08pat.structured_graphs():
+        if n > (10 if deep else 9) and name != "petersen":
+            continue
+        forms = c08pat.edge_forms(n, es, rng)
+        picks = forms if deep else [forms[0]] + rng.sample(forms[1:], 2)
+        for ftag, fes in picks:
+            if fresh(n, fes):
+                yield "structured:" + ftag, n, fes, ftag == "as-is" and n <= 8
+
+
 def compare_sets(ctx, what, key_prefix, n, got, want_fn, detail):
     """got: set of accepted patterns; want_fn(pattern) -> bool over all 2^n patterns"""
     bad = 0
@@ -492,6 +717,107 @@ def search(ctx):
         raise AssertionError("specification / certificate cross-checks failed: %r" % (ctx.mismatches[n_mis:n_mis + 3],))
 
 
+BIG_SHAPES = [(4, 5), (5, 4), (5, 5), (6, 6), (7, 7), (3, 7), (7, 3), (2, 8), (4, 4)]
+BIG_SHAPES_THOROUGH = [(4, 6), (6, 4), (5, 6), (6, 5), (6, 7), (7, 6), (8, 8), (9, 9), (2, 11), (11, 2)]
+
+
+def family(tag):
+    return "".join(c for c in tag if not c.isdigit())
+
+
+def search_big_boards(ctx, m, spec_reqs, spec_meta):
+    """grid form vs explicit-graph form vs the oracle on X shapes, 3-4-armed stars, maximal diagonal chains
+    (hanging from the border, free, joining two border cells), zig-zags, rings, checkerboards and random
+    diagonal-rich patterns of boards with 16..49 cells (thorough: up to 81).  z3 decides the really posted
+    programs pattern by pattern; refuting the explicit-graph form (rank descent in a rootless component) is
+    slow for z3 on 36+ cells, so there those checks run with a short timeout and 'unknown' is counted as
+    inconclusive (never as accept or reject)."""
+    import c08pat
+    from cspuz.expr import IntVar
+    shapes = list(BIG_SHAPES) + (BIG_SHAPES_THOROUGH if (ctx.thorough or ctx.deep) else [])
+    for (h, w) in shapes:
+        n = h * w
+        es = graphcap.grid_edges(h, w)
+        gk = "%dx%d" % (h, w)
+        pats = c08pat.board_patterns(h, w, ctx.rng, n_random=40 if ctx.thorough else 16,
+                                     star_cap=60 if ctx.thorough else 24)
+        progs = {}
+        for name, helper, kw in (("NA-grid", "NA", {"shape": (h, w)}), ("NS-grid", "NS", {"shape": (h, w)}),
+                                 ("NS-gridgraph", "NS", {"n": n, "edges": es})):
+            s, av = posted(helper, **kw)
+            if s is None:
+                ctx.violation("%s:%s:raises" % (name, gk), "helper raised on a valid grid", {"shape": [h, w], "error": av})
+            else:
+                progs[name] = (s, av, Z3Prog(s))
+        inconclusive = seg_done = 0
+        fam_seen = {}
+        cd_reqs, rk_reqs, rk_pats = [], [], []
+        for tag, cells in pats:
+            pat = c08pat.to_bits(h, w, cells)
+            ind = oracle_independent(es, pat)
+            ns = ind and graphcap.is_connected(n, es, [not a for a in pat])
+            ctx.count("h:big:" + family(tag))
+            ctx.count("h:big-board:" + gk)
+            fam_seen[family(tag)] = fam_seen.get(family(tag), 0) + 1
+            obs = {}
+            for name, exp in (("NA-grid", ind), ("NS-grid", ns), ("NS-gridgraph", ns)):
+                if name not in progs:
+                    continue
+                s, av, prog = progs[name]
+                tmo = None
+                if name == "NS-gridgraph" and n > 16:
+                    if n > 25 and not ctx.thorough and fam_seen[family(tag)] > 3:
+                        continue  # z3 on the 36+-vertex rank encoding is slow: a few patterns of each family
+                    if ind and not ns:
+                        # refutation of the rank encoding: sampled, short timeout
+                        if seg_done >= (40 if ctx.thorough else 8):
+                            continue
+                        seg_done += 1
+                        tmo = 1500 if ctx.thorough else 250
+                    else:
+                        if inconclusive >= 25:
+                            continue
+                        tmo = 4000 if ctx.thorough else 1500
+                r, model = prog.check(list(zip(av, pat)), want_model=True, timeout_ms=tmo)
+                if r is None:
+                    inconclusive += 1
+                    ctx.count("h:big:graph-form-inconclusive(z3 timeout)")
+                    continue
+                obs[name] = r
+                ctx.prop_case(name + "-big", (gk, bits(pat)))
+                if r != exp:
+                    d = {"helper": name[:2], "shape": [h, w], "pattern": bits(pat), "family": tag,
+                         "active_cells": sorted(cells), "expected_accept": exp, "observed_accept": r}
+                    if name == "NS-gridgraph":
+                        d["route"] = "explicit graph"
+                    ctx.violation("%s:%s:p=%s" % (name, gk, bits(pat)),
+                                  name + ": accepted patterns differ from the graph definition", d)
+                if name == "NS-grid" and r and m is not None and h >= 2 and w >= 2:
+                    rank_vars = [v for v in s.variables if isinstance(v, IntVar)]
+                    cd_reqs.append("CD %d %d B %s R %s" % (h, w, " ".join(bits(pat)), " ".join(str(model[v.id]) for v in rank_vars)))
+            if "NS-grid" in obs and "NS-gridgraph" in obs and obs["NS-grid"] != obs["NS-gridgraph"]:
+                ctx.violation("NS-grid-vs-graph:%s:p=%s" % (gk, bits(pat)),
+                              "grid encoding and explicit-graph encoding accept different patterns",
+                              {"shape": [h, w], "pattern": bits(pat), "family": tag, "active_cells": sorted(cells),
+                               "grid_accepts": obs["NS-grid"], "graph_accepts": obs["NS-gridgraph"]})
+            if m is not None:
+                spec_reqs.append("SP %d %d B %s" % (h, w, " ".join(bits(pat))))
+                spec_meta.append(("grid", (h, w), es, pat))
+                if ns and h >= 2 and w >= 2:
+                    rk_reqs.append("RK %d %d B %s" % (h, w, " ".join(bits(pat))))
+                    rk_pats.append(pat)
+        if m is not None and "NS-grid" in progs:
+            s, av, prog = progs["NS-grid"]
+            rank_vars = [v for v in s.variables if isinstance(v, IntVar)]
+            outs = m.batch(cd_reqs + rk_reqs)
+            for i, rq in enumerate(cd_reqs):
+                ctx.corr("z3-model-vs-cert_diag", (h, w, rq), outs[i], "1")
+            for i, pat in enumerate(rk_pats):
+                ranks = [int(x) for x in outs[len(cd_reqs) + i].split()]
+                ok = len(ranks) == len(rank_vars) and prog.check(list(zip(av, pat)) + list(zip(rank_vars, ranks)))
+                ctx.corr("diag_rank-on-real-program", (h, w, bits(pat)), True, bool(ok))
+
+
 def search_body(ctx):
     m = None
     try:
@@ -501,7 +827,7 @@ def search_body(ctx):
     spec_reqs, spec_meta = [], []
 
     # ---- explicit graphs
-    for n, es in search_graphs(ctx):
+    def one_graph(n, es, variant_p, want_spec=True):
         gk = "n=%d:e=%s" % (n, ",".join("%d-%d" % e for e in es))
         for helper, oracle in (("NA", lambda p: oracle_independent(es, p)),
                                ("NS", lambda p: oracle_not_segmenting(n, es, p))):
@@ -512,10 +838,21 @@ def search_body(ctx):
             _, acc = accepted_set(s, av)
             compare_sets(ctx, "%s-graph" % helper, "%s-graph:%s" % (helper, gk), n, set(acc), oracle,
                          {"helper": helper, "n": n, "edges": es})
-        if m is not None:
+            if ctx.rng.random() < variant_p:
+                check_variant(ctx, "%s-graph-variant" % helper, "%s-graph:%s" % (helper, gk), helper,
+                              random_variant(ctx.rng, helper, False, n, len(es)), oracle,
+                              {"helper": helper, "n": n, "edges": es}, n=n, edges=es)
+        if m is not None and want_spec:
             for pat in graphcap.patterns(n):
                 spec_reqs.append("SG %s B %s" % (graphcap.graph_tok(n, es), " ".join(bits(pat))))
                 spec_meta.append(("graph", n, es, pat))
+
+    for n, es in search_graphs(ctx):
+        one_graph(n, es, 0.5 if (ctx.thorough or ctx.deep) else 0.15)
+    # class 4 / 5: reversed, mixed, parallel-reversed edges and self-loops; structured graphs with 5..10 vertices
+    for label, n, es, want_spec in search_graph_forms(ctx):
+        ctx.count("h:graph-form:" + label)
+        one_graph(n, es, 0.3, want_spec)
 
     # ---- Python constants as is_active (direct evaluation of what is posted)
     from cspuz import Solver
@@ -568,6 +905,12 @@ def search_body(ctx):
             _, acc_graph = accepted_set(s2, av2)
             compare_sets(ctx, "NS-grid-as-graph", "NS-gridgraph:" + gk, n, set(acc_graph), lambda p: want[p][1],
                          {"helper": "NS", "shape": [h, w], "route": "explicit graph"})
+            if n <= 9 or ctx.rng.random() < (0.6 if (ctx.thorough or ctx.deep) else 0.25):
+                for helper, kind, idx in (("NA", "NA-grid", 0), ("NS", "NS-grid", 1)):
+                    if n <= 12 or helper == "NA" or ctx.rng.random() < 0.5:
+                        check_variant(ctx, kind + "-variant", kind + ":" + gk, helper,
+                                      random_variant(ctx.rng, helper, True, n, len(es)), lambda p, i=idx: want[p][i],
+                                      {"helper": helper, "shape": [h, w]}, shape=(h, w))
             if acc_grid is not None and set(acc_grid) != set(acc_graph):
                 diff = sorted(set(acc_grid) ^ set(acc_graph))[0]
                 ctx.violation("NS-grid-vs-graph:%s:p=%s" % (gk, bits(diff)),
@@ -595,6 +938,9 @@ def search_body(ctx):
                     ranks = [int(x) for x in outs[len(pats) + i].split()]
                     ok = len(ranks) == len(rank_vars) and prog.check(list(zip(av, pat)) + list(zip(rank_vars, ranks)))
                     ctx.corr("diag_rank-on-real-program", (h, w, bits(pat)), True, bool(ok))
+
+    # ---- class 5: targeted patterns on boards beyond the exhaustive scope
+    search_big_boards(ctx, m, spec_reqs, spec_meta)
 
     # ---- the Coq specifications against the oracles
     if m is not None and spec_reqs:
